@@ -116,6 +116,25 @@ class RLESeq:
         return f"<rle {'tuple' if self.is_tuple else 'list'} {self.segments!r} x {self.times!r}>"
 
 
+class SymRange:
+    """range(start, stop) with symbolic bounds (step 1); stop None = unbounded (itertools.count)"""
+
+    def __init__(self, start, stop):
+        self.start = start
+        self.stop = stop
+
+
+class SymRangeIter:
+    """iterator over a SymRange; `pos` is the next value to produce (concrete int or Sym).  At bisimulation cut
+    points `pos` may be generalised to a fresh symbol (loop invariant start <= pos <= stop), see bisim.py"""
+
+    def __init__(self, rng):
+        self.rng = rng
+        self.pos = rng.start
+        self.owner = None          # (frame, loop-variable name) once a for statement drives it
+        self.exhausted = False
+
+
 class SymSet:
     """a set whose elements are symbolic scalars; `items` are pairwise distinct on the current path"""
 
